@@ -45,7 +45,8 @@ CallFn(fn, recv, args, f) ==
   CASE fn = "GetX"  -> IF "F.X" \in DOMAIN f THEN Ok(f["F.X"]) ELSE Err
     [] fn = "GetPV" -> IF "F.P.V" \in DOMAIN f THEN Ok(f["F.P.V"]) ELSE Err
     [] fn = "Sum"   -> Ok(args[1] + args[2])
-    [] fn = "Heavy" -> Ok(args[1] * 2 + 1)
+    [] fn = "Heavy" -> Ok(args[1] * 2)
+    [] fn = "HeavyB" -> Ok(args[1] > 1)
     [] fn = "IsPos" -> Ok(args[1] > 0)
     [] fn = "Risky" -> IF args[1] = 13 THEN Err ELSE Ok(args[1])
     [] fn = "Len"   -> IF recv.ok THEN Ok(Len(recv.v)) ELSE Err
